@@ -14,6 +14,16 @@ class WorkerDies(BaseException):
     """not an Exception: the worker loop does not catch it, the process dies"""
 
 
+class TwoArgError(Exception):
+    """an exception whose constructor takes two arguments but passes one message to Exception: it pickles, but the
+    pickle cannot be loaded again (a common shape of hand-written exception classes)"""
+
+    def __init__(self, what, where):
+        super().__init__(f"{what} at {where}")
+        self.what = what
+        self.where = where
+
+
 class Anything:
     """an item that compares equal to everything (like unittest.mock.ANY): items are opaque to parallel_add"""
 
@@ -80,12 +90,17 @@ def apply_item(item, sketches):
 # set by a check that wants to look at the worker's own sketch objects after each item (C06: draw batches of log sketches)
 observe_hook = None
 
+# set by the in-process contexts: called with every item the callback is invoked for (the exactly-once oracle)
+deliver_hook = None
+
 # set by the cooperative-thread context: a callback takes time, so every call is a point where other processes may run
 yield_hook = None
 
 
 def process_item(item, *sketches, side=None, **kwargs):
     item = normalize(item)
+    if deliver_hook is not None:
+        deliver_hook(item)
     if yield_hook is not None:
         yield_hook()
     if side:
@@ -94,7 +109,9 @@ def process_item(item, *sketches, side=None, **kwargs):
     mode = item.get("mode", "ok")
     if mode == "raise_before":
         # exceptions of several shapes: with a message, without arguments, with a non-string argument, an assert
-        v = item["idx"] % 5 if isinstance(item["idx"], int) else 0
+        v = item["idx"] % 6 if isinstance(item["idx"], int) else 0
+        if v == 5:
+            raise TwoArgError("unreadable record", item["idx"])
         if v == 0:
             raise RuntimeError(f"callback refuses item {item['idx']}")
         if v == 1:
@@ -112,8 +129,16 @@ def process_item(item, *sketches, side=None, **kwargs):
     if observe_hook is not None:
         observe_hook(sketches)
     if mode == "raise_after":
-        if isinstance(item["idx"], int) and item["idx"] % 2:
+        # also exceptions of the OSError family (the kind a library might be tempted to retry) and one that cannot be unpickled
+        v = item["idx"] % 5 if isinstance(item["idx"], int) else 0
+        if v == 1:
             raise IndexError  # no arguments
+        if v == 2:
+            raise FileNotFoundError(2, "No such file or directory", f"record-{item['idx']}.txt")
+        if v == 3:
+            raise TimeoutError("timed out")
+        if v == 4:
+            raise TwoArgError("unreadable record", item["idx"])
         raise ValueError(f"callback fails after updating the sketches with item {item['idx']}")
     rt = item.get("ret_type")
     if rt:
